@@ -200,6 +200,14 @@ pub fn run(ctx: &Ctx) -> CheckResult {
                 fams.push(Family { cfg, base, base_name: "zigzag-70000", deviations: vec![], check_at: vec![1, 2, 1000, 65_535, 65_536, 65_537, 65_540, 70_000, 92_681, 92_682, 92_683, 100_000, 100_001, len] });
             }
         }
+        // medium periods on tick-grid walks (ties, plateaus, double tops at every phase of the ring)
+        {
+            let mut cfgs = vec![];
+            for n in (6..=40usize).filter(|n| th || n % 2 == 0 || *n == 7 || *n == 9 || *n == 13) {
+                cfgs.extend(subjects(n, false));
+            }
+            fams.extend(tick_walk_families(&cfgs, if th { 6000 } else { 1200 }, ctx.seed, false, false));
+        }
         fam_runs = fams.len() as u64;
         let chunks: Vec<&[Family]> = fams.chunks(64).collect();
         let outs = par_run(ctx, &chunks, |_, chunk| {
@@ -240,7 +248,7 @@ pub fn run(ctx: &Ctx) -> CheckResult {
     }
     res.rule = "case = (configuration, operation history) replayed on a fresh real instance, output of the last op compared with the from-scratch double-double statistic of the last min(t,n) inputs since reset; distinct by construction (tree nodes / de-duplicated concrete states); non-trivial = oracle applicable and history longer than the window (at least one eviction)".into();
     res.bounds = format!(
-        "seq(S_int+reset, {}), seq(S_rough, {}) and seq(S_tiny(2^-60 unit)+reset, same depth), seq(S_ulp = neighbours 1 and 4 ulps apart) for n=1..5 x {{SMA,WMA,SD,MAD,MIN,MAX,BB(mult 2; 0,0.5,3,-1 at depth-2)}}; BFS fixpoint over S_int for SMA/WMA/MAD/MIN/MAX n=1..{}; periods 65537 and 100000 on 70000 / 100010-step streams (checked around steps 65536, 92682 and 100000); Default::default() instances; seq(S_nearmax = {{1e308, 1.1e308, 1.2e308, 1.05e308}}+reset, 6/8) compared after exact scaling by 2^-600; deviation-bounded families (4 base streams, k<=1{} deviations at every position; reset() at 7 positions) for periods {:?}",
+        "seq(S_int+reset, {}), seq(S_rough, {}) and seq(S_tiny(2^-60 unit)+reset, same depth), seq(S_ulp = neighbours 1 and 4 ulps apart) for n=1..5 x {{SMA,WMA,SD,MAD,MIN,MAX,BB(mult 2; 0,0.5,3,-1 at depth-2)}}; BFS fixpoint over S_int for SMA/WMA/MAD/MIN/MAX n=1..{}; periods 65537 and 100000 on 70000 / 100010-step streams (checked around steps 65536, 92682 and 100000); Default::default() instances; seq(S_nearmax = {{1e308, 1.1e308, 1.2e308, 1.05e308}}+reset, 6/8) compared after exact scaling by 2^-600; tick-grid walks of 1200 / 6000 steps (with and without resets) for periods 6..40; deviation-bounded families (4 base streams, k<=1{} deviations at every position; reset() at 7 positions) for periods {:?}",
         d_int,
         d_rough,
         d_bfs_n,
